@@ -145,6 +145,8 @@ def pmap(items, fn, workers=None, init=None):
         return total
     tmp = tempfile.mkdtemp(prefix="vmc-", dir="/dev/shm" if os.path.isdir("/dev/shm") else None)
     counter = multiprocessing.Value("l", 0)
+    # spread concurrent checks over the machine (offset by pid) instead of all using CPU 0..k
+    pin_base = (os.getpid() * 7) % max(1, len(ALL_CPUS)) if workers < len(ALL_CPUS) else 0
     pids = []
     sys.stdout.flush()
     sys.stderr.flush()
@@ -154,7 +156,7 @@ def pmap(items, fn, workers=None, init=None):
             if pid == 0:
                 code = 0
                 try:
-                    pin(w)
+                    pin(w + pin_base)
                     if init:
                         init()
                     acc = Acc()
